@@ -1223,6 +1223,7 @@ func genX(g *core.G) {
 		emitFmt(g, sx.T("mmap", xs...), v)
 	}
 	genTyped(g)
+	genSpan(g)
 	// per-type format maps with the keys of every kind over containers that hold every kind
 	n = 2500 * g.Scale
 	for i := 0; i < n; i++ {
@@ -1598,5 +1599,72 @@ func genTyped(g *core.G) {
 			mode = "tmap"
 		}
 		emitFmt(g, sx.T(mode, ks...), v)
+	}
+}
+
+// ---- Timespan.Format: op span ---------------------------------------------------------------------------------------------------------
+
+func genSpan(g *core.G) {
+	r := g.Rng
+	emit := func(f string, ns int64) {
+		line := "span " + sx.Str(f).Atom + " " + strconv.FormatInt(ns, 10)
+		if !utf8.ValidString(f) {
+			line = "@" + line // a format is a sequence of characters in the model
+		}
+		g.Emit(line)
+	}
+	spans := append([]int64{}, spanPool...)
+	spans = append(spans, math.MinInt64, 90061501234567, -90061501234567, 50000000, 5000000, 1000, 999, 59999999999, 3599999999999, 86399999999999, 1234567890123456789)
+	// exhaustive small universe: every letter x every flag x widths {-,0,1,2,3,5,9,12}, alone and after a higher / lower unit
+	letters := "DHMSLN"
+	for i := 0; i < len(letters); i++ {
+		for _, fl := range []string{"", "-", "_", "0"} {
+			for _, w := range []string{"", "0", "1", "2", "3", "5", "9", "12"} {
+				d := "%" + fl + w + string(letters[i])
+				for _, ns := range spans {
+					emit(d, ns)
+					if !g.Thorough() && ns != 90061501234567 && ns != -90061500000000 && ns != 50000000 {
+						continue
+					}
+					emit("%D " + d, ns)
+					emit(d + ":%N", ns)
+				}
+			}
+		}
+	}
+	for _, f := range []string{"%D-%H:%M:%S.%N", "%D-%H:%M:%S.%-N", "%H:%M:%S.%-N", "%M:%S.%-N", "%S.%-N", "%D-%H:%M:%S", "%H:%M:%S", "%D-%H:%M", "%S", "%S.%L", "%S.%-L",
+		"%H:%M", "%_5H|%-H|%05H", "%-N|%N|%_N|%3N|%-12N|", "%%", "%5%x", "a%Db", "é%Hé", "%0H", "%00H", "%D%D", "%H%H", "100%% %S", "", "no directive",
+		"%20000000D", "%S %-20000000N", "%_30000000H", "%1000001S.%N"} {
+		for _, ns := range spans {
+			emit(f, ns)
+		}
+	}
+	// malformed
+	for _, f := range []string{"%", "%5", "%-", "%-_H", "%x", "%_-H", "%5-H", "%H%", "%d", "%h", "% H", "%.3N", "%+H", "%5_H", "%--H", "%_", "%0", "%00", "x%", "%\xffH", "\xff%H"} {
+		emit(f, 90061501234567)
+	}
+	// random formats: literals, directives with random flags and widths, now and then a malformed piece
+	n := 1500 * g.Scale
+	lits := []string{"", ":", "-", ".", " ", "d ", "é", "%%", "h", "T"}
+	for i := 0; i < n; i++ {
+		f := ""
+		for j := 1 + r.Intn(5); j > 0; j-- {
+			f += lits[r.Intn(len(lits))]
+			d := "%" + []string{"", "", "-", "_", "0"}[r.Intn(5)]
+			if r.Intn(3) == 0 {
+				d += strconv.Itoa(r.Intn(15))
+			}
+			d += string(letters[r.Intn(len(letters))])
+			if r.Intn(25) == 0 {
+				d = []string{"%", "%-", "%q", "%5", "%_-D", "%1_H"}[r.Intn(6)]
+			}
+			f += d
+		}
+		f += lits[r.Intn(len(lits))]
+		ns := spans[r.Intn(len(spans))]
+		if r.Intn(3) == 0 {
+			ns = r.Int63n(1<<uint(1+r.Intn(62))) * int64(1-2*r.Intn(2))
+		}
+		emit(f, ns)
 	}
 }
